@@ -52,6 +52,7 @@ class mapper(object):
     def __init__(self, instrlist=None, cur=None):
         self.__map = generation()
         self.__map.lastw = 0
+        self.__map.endian = {}
         self.__map.delayed = None
         self.__Mem = MemoryMap()
         self.conds = []
@@ -131,6 +132,7 @@ class mapper(object):
     def clear(self):
         "clear the current mapper, reducing it to the identity transform"
         self.__map.clear()
+        self.__map.endian = {}
         self.__Mem = MemoryMap()
         self.conds = []
 
@@ -172,9 +174,10 @@ class mapper(object):
             return k.a.base
         n = self.aliasing(k)
         if n > 0:
-            f = lambda e: e[0]._is_ptr
-            items = filter(f, list(self.__map.items())[0:n])
-            res = mem(k.a, k.size, mods=list(items), endian=k.endian)
+            # each mod is (location, value, byte order of the write)
+            E = self.__map.endian
+            items = [(l, v, E.get(l, 1)) for (l, v) in list(self.__map.items())[0:n] if l._is_ptr]
+            res = mem(k.a, k.size, mods=items, endian=k.endian)
         else:
             res = self._Mem_read(k.a, k.length, k.endian)
             res.sf = k.sf
@@ -253,7 +256,9 @@ class mapper(object):
         return r[0 : k.size]
 
     # define image v of antecedent k:
-    def __setitem__(self, k, v):
+    def __setitem__(self, k, v, endian=1):
+        # endian is the byte order of the write when k is a pointer
+        # (a mem key carries its own)
         if k._is_ptr:
             loc = k
         else:
@@ -275,8 +280,6 @@ class mapper(object):
                 r = composer([r, oldr[r.size : oldr.size]])
             if k._is_mem:
                 endian = k.endian
-            else:
-                endian = 1
             self._Mem_write(loc, r, endian)
             if conf.Cas.memtrace or not conf.Cas.noaliasing:
                 # if we assume that aliasing may exists, we
@@ -284,6 +287,7 @@ class mapper(object):
                 # in the mapper:
                 self.__map.lastw = len(self.__map) + 1 #this is O(1) AFAIK...
                 self.__map[loc] = r
+                self.__map.endian[loc] = endian
         else:
             r = self.R(loc)
             if r._is_reg:
@@ -341,8 +345,10 @@ class mapper(object):
             mm.conds.append(cc)
         for loc, v in self:
             if loc._is_ptr:
-                loc = m(loc)
-            mm[loc] = m(v)
+                # a memory write is replayed with the byte order it was made with
+                mm.__setitem__(m(loc), m(v), self.__map.endian.get(loc, 1))
+            else:
+                mm[loc] = m(v)
         return mm
 
     def rcompose(self, m):
@@ -362,8 +368,10 @@ class mapper(object):
             mm.conds.append(cc)
         for loc, v in self:
             if loc._is_ptr:
-                loc = m(loc)
-            mm[loc] = m(v)
+                # a memory write is replayed with the byte order it was made with
+                mm.__setitem__(m(loc), m(v), self.__map.endian.get(loc, 1))
+            else:
+                mm[loc] = m(v)
         return mm
 
     def __lshift__(self, m):
